@@ -33,7 +33,7 @@ def single(value):
 
 
 @dispatcher.register_for('IF')
-def IF(test, then, otherwise):
+def IF(test, then, otherwise=False):
     test = single(test)
     if isinstance(test, error.XLError):
         return test
